@@ -22,7 +22,7 @@ RULE = ("Hypothesis: Gaussians as in C05 (Sigma = B B^T + diag(d) positive defin
         "repeated on the same object after overwriting the previously returned coefficient array. LGANM link: generated LGANMs "
         "(signed weights, positive variances) under random do/noise/shift interventions with positive variances: regressing "
         "each variable on its post-intervention parents must return W'[:, i], mu'_i and sigma'^2_i. Non-trivial = |S|>=2, or "
-        "y in S, or an LGANM case with an intervention on y or on one of its parents.")
+        "y in S, or an LGANM case with an intervention on y or on one of its parents. Also: per-coordinate units with an equilibrated tolerance, int64 covariances with fractional means, descending ranges, scalar shift parameters in the LGANM link.")
 ASSUMPTIONS = [
     "oracle: exact rational normal equations (/verif/harness/exact.py)",
     "tolerances are norm-wise and condition-scaled; cond(Sigma_SS) > 1e8 (or cond(I-W^T) > 1e6 in the LGANM link) is discarded",
